@@ -1228,6 +1228,15 @@ class Exec:
             if meth == "update":
                 base.update(args[0])
                 return None
+            if meth == "setdefault":
+                return base.setdefault(_hashable(args[0]), args[1] if len(args) > 1 else None)
+            if meth == "pop":
+                k_ = _hashable(args[0])
+                if k_ in base:
+                    return base.pop(k_)
+                if len(args) > 1:
+                    return args[1]
+                raise _Raise(Raised("KeyError", (str(k_),)))
         if isinstance(base, list):
             if meth == "append":
                 base.append(args[0])
